@@ -27,6 +27,7 @@ import RapidProofs.TranslatedEq
 import RapidProofs.TranslatedProgEq
 import RapidProofs.TranslatedFloatEq
 import RapidProofs.TranslatedFindEq
+import RapidProofs.TranslatedChoiceEq
 import RapidModel.Generated.Thresholds
 import RapidModel.Minimize
 
@@ -324,6 +325,33 @@ theorem source_map (fe : Go.FEval) (e : Env) (lab : Bool) (g : Gen) (f : Val →
     Translated.mappedGen_value fe (fun k' => (wrapValue (g.lbl lab) (g.body e lab)) >>- k') f fuel (fun v => .ret v) =
       (Gen.map g f).body e lab := by
   rfl
+
+/-- **`SampledFrom` of /repo** (and `Just`): an index from `genIndex(len(slice), true)`, then `slice[i]` — run for run the
+    model's `index` followed by the element (the runtime panic of an index out of range is never reached) -/
+theorem source_sampled {E : Type} [Go.Enc E] [Inhabited E] (fe : Go.FEval) (ft : FT) (H : FloatFacts fe ft) (slice : List E)
+    (h0 : 0 < slice.length) (hl : slice.length < 2 ^ 62) (fuel : Nat) (k : E → Prog) :
+    RunEq (Translated.sampledGen_value fe slice fuel k) (index ft slice.length true fuel fun i => k (slice[i]?.getD default)) :=
+  tr_sampled_model fe ft H slice h0 hl fuel k _ (fun i hi => by simp [List.getElem?_eq_getElem hi]; exact RunEq.refl _)
+
+/-- … over the list of the indices themselves it is the `.sampled` case of the model's generators -/
+theorem source_sampled_model (fe : Go.FEval) (e : Env) (H : FloatFacts fe e.ft) (lab : Bool) (n : Nat) (h0 : 0 < n) (hl : n < 2 ^ 62) :
+    RunEq (Translated.sampledGen_value fe ((List.range n).map fun (i : Nat) => Val.int i) e.fuel fun v => .ret v)
+      ((Gen.sampled n).body e lab) := by
+  have := tr_sampled_model fe e.ft H ((List.range n).map fun (i : Nat) => Val.int i) (by simpa using h0) (by simpa using hl) e.fuel
+    (fun v => .ret v) (fun i => .ret (.int i)) (fun i hi => by simp; exact RunEq.refl _)
+  simpa [Gen.body] using this
+
+/-- **`OneOf` of /repo**: an index from `genIndex(len(gens), true)`, then a draw from `gens[i]` — the `.oneOf` case of the
+    model's generators -/
+theorem source_oneOf (fe : Go.FEval) (e : Env) (H : FloatFacts fe e.ft) (lab : Bool) (n : Nat) (g : Nat → Gen) (h0 : 0 < n) (hl : n < 2 ^ 62) :
+    RunEq (Translated.oneOfGen_value fe ((List.range n).map fun i => fun k' => (wrapValue ((g i).lbl lab) ((g i).body e lab)) >>- k')
+        e.fuel fun v => .ret v)
+      ((Gen.oneOf n g).body e lab) := by
+  have := tr_oneOf_model fe e.ft H ((List.range n).map fun i => fun k' => (wrapValue ((g i).lbl lab) ((g i).body e lab)) >>- k')
+    (by simpa using h0) (by simpa using hl) e.fuel (fun v => .ret v)
+    (fun i => wrapValue ((g i).lbl lab) ((g i).body e lab)) (fun i hi => by simp; exact bind_ret_runEq _)
+  show RunEq _ (index _ _ _ _ _)
+  simpa using this
 
 /-! ### facts re-read from /repo's source on every run -/
 
